@@ -63,7 +63,7 @@ func main() {
 		fmt.Printf("unknown or unimplemented property %q\n", *prop)
 		os.Exit(2)
 	}
-	allDeps := *tier == "thorough" && needsDeps[*prop]
+	allDeps := *tier == "thorough" && (needsDeps[*prop] || len(sinks[*prop]) > 0)
 	c, err := load(*repo, allDeps)
 	if err != nil {
 		// A tree that does not load cannot be analysed: broken check, not a
@@ -84,6 +84,10 @@ func main() {
 			}
 		}()
 		spec.run(c)
+		if c.Tier == "thorough" {
+			c.wholeProgramCallers()
+			c.bceCrossCheck()
+		}
 		return 0
 	}()
 	_ = code
